@@ -264,10 +264,12 @@ def unordered_iterations(ctx, fn: FuncInfo):
 
 # order-insensitive uses confirmed by reading: (function, source text prefix) -> reason
 UNORDERED_OK = {
-    ("codemodder.code_directory.files_for_directory", "Path(parent_path).rglob"): "every consumer passes the list through match_files(), which sorts",
+    ("codemodder.code_directory.files_for_directory", "Path($0).rglob"): "every consumer passes the list through match_files(), which sorts",
     ("codemodder.registry.CodemodRegistry.default_include_paths", "self._default_include_paths"): "only used as fnmatch include patterns (set algebra in match_files) and for logging",
     ("codemodder.context.CodemodExecutionContext.process_dependencies", "dependencies"): "each codemod adds at most one distinct Dependency (checked by R-NO-UNORDERED-ITER/one-dependency)",
     ("codemodder.context.CodemodExecutionContext.process_dependencies", "self.dependencies.get(codemod_id)"): "each codemod adds at most one distinct Dependency (checked by R-NO-UNORDERED-ITER/one-dependency)",
+    ("codemodder.context.CodemodExecutionContext.process_dependencies", "self.dependencies.get($1)"): "each codemod adds at most one distinct Dependency (checked by R-NO-UNORDERED-ITER/one-dependency)",
+    ("codemodder.context.CodemodExecutionContext.add_description", "self.dependencies.get($1.id, [])"): "each codemod adds at most one distinct Dependency (checked by R-NO-UNORDERED-ITER/one-dependency)",
     ("codemodder.context.CodemodExecutionContext.add_description", "self.dependencies.get(codemod.id, [])"): "each codemod adds at most one distinct Dependency (checked by R-NO-UNORDERED-ITER/one-dependency)",
 }
 
@@ -579,7 +581,10 @@ def rule_no_unordered_iter(ctx, rep):
         for node, src, kind in unordered_iterations(ctx, fn):
             n_checked += 1
             st = unparse(src)
-            ex = next((why for (q, pre), why in UNORDERED_OK.items() if q == fn.qname and st.startswith(pre)), None)
+            from ..model import unparse_positional
+
+            stp = unparse_positional(fn, src)  # parameters by position: the table does not depend on what they are called
+            ex = next((why for (q, pre), why in UNORDERED_OK.items() if q == fn.qname and (st.startswith(pre) or stp.startswith(pre))), None)
             if ex is None and fn.qname.startswith(("codemodder.codemods.utils_mixin.", "codemodder.codemods.transformations.", "core_codemods.", "codemodder.utils.", "codemodder.codemods.utils.")):
                 # sets of CST nodes / scopes inside transformers are identity-hashed (not seed dependent) and per file;
                 # they are judged by C08/C16 rules on the emitted code, not here
